@@ -37,6 +37,9 @@ CASES_NOTE = "Trusted: TLC's evaluation of the specification operators; the boun
 checks["C15"] = dict(level="model_checking", text="Resolve.tla defines Resolve(table, request) (exact name, first wildcard pattern in table order with only '*' special, unique alias, 203/200, suggestion for ordinary names). TLC enumerates every table of the bounded universe as initial states and emits the expected answer for every request; each (table, request) is asked of the real Executor (GetTask, MATCH validated by substitution, every 50th also run). Exhaustive within the universe.",
    note=CASES_NOTE, ref="DESIGN.md 4.3, 5 (C15)", tech="TLA+ functional specification enumerated by TLC (one implementation test per TLC state) against Executor.GetTask/Run", engine="load")
 
+checks["C19"] = dict(level="model_checking", text="Args.tla states the contract as operators (Forward = identity on argument vectors, Quote = one identical argument, SplitVar at the first '=', the --init decision table). TLC enumerates every argument vector / value over a 21-character hostile alphabet within the length bounds as initial states with the expected result; every case is one invocation of the task CLI whose helper binary records the argv it received (byte comparison), or whose created file is inspected. Exhaustive within the bounds, plus hand-written longer hostile values.",
+   note=CASES_NOTE + " The specification of C19 is the identity function: TLC contributes the exhaustive enumeration, not insight (DESIGN 8).", ref="DESIGN.md 4.6, 5 (C19), 8", tech="TLA+ cases specification enumerated by TLC, each case replayed through the task CLI with an argv-recording helper", engine="cli")
+
 ALL = ["C%02d" % i for i in range(1, 21)]
 pending = {p: "check not built yet in this round (planned, see DESIGN.md section 5)" for p in ALL if p not in checks}
 
@@ -54,6 +57,7 @@ m = {
    "kind_free_text": "TLA+ model of the up-to-date state machine + monitor; TLC model checking, history replay against the task CLI, TLC evaluation of observed histories"},
   {"name": "load", "path": "specs/load + harness/loadfam", "serves_properties": ["C15"],
    "kind_free_text": "TLA+ functional specifications (cases models) enumerated by TLC, compared with the real loader/resolver"},
+  {"name": "cli", "path": "specs/cli + harness/clifam", "serves_properties": ["C19"], "kind_free_text": "TLA+ cases specification + CLI driver with argv-recording helper"},
  ],
  "checks": [], "not_applicable": [], "notes": "Every check: bash /verif/run.sh <id> <quick|thorough>; replay: bash /verif/run.sh <id> --replay <file>."
 }
